@@ -36,11 +36,13 @@ func detKeys(seed uint64, perAlgo int) []principal {
 			return crypto.GenerateECDSAKeyPairWithCurve(elliptic.P521(), rd)
 		}},
 		{"rsa", func() (crypto.PrivKey, crypto.PubKey, error) { return crypto.GenerateRSAKeyPair(2048, rd) }},
+		// the size did.GenerateRSA uses (its signatures are 384 bytes, not the 256 of a 2048-bit key)
+		{"rsa3072", func() (crypto.PrivKey, crypto.PubKey, error) { return crypto.GenerateRSAKeyPair(3072, rd) }},
 	}
 	var out []principal
 	for _, gn := range gens {
 		n := perAlgo
-		if gn.name == "rsa" {
+		if gn.name == "rsa" || gn.name == "rsa3072" {
 			n = 1
 		}
 		for i := 0; i < n; i++ {
